@@ -700,6 +700,8 @@ def executeDecimalMethod (l r : Option Node) (num : F64) : Except Err F64 :=
         let scaled := F64.mul num ratio
         -- when num*ratio overflows (ratio finite), num has no digits beyond the scale: unchanged
         let rounded := if scaled.isInf && !ratio.isInf then num else F64.div (F64.round scaled) ratio
+        -- rounding up at a negative scale can leave the float64 range
+        if rounded.isInf then .error .verbose else
         let count : Int := countNonZeroDigits (Decimal.formatF rounded)
         if count > 0 && count > precision - scale then .error .verbose else .ok rounded
 
